@@ -1,4 +1,5 @@
-HOOK_COMMITS = ['d72f86d (H1 small arena for memory managers)', '62f5160 (H5 node header start size)', 'b191b11 (H6 hash_stream word log)']
+HOOK_COMMITS = ['d72f86d (H1 small arena for memory managers)', '62f5160 (H5 node header start size)', 'b191b11 (H6 hash_stream word log)',
+                '9706867+cfc3b0e (H4 small initial compute-table hash table; used only by the exploratory C07 component harness, see DESIGN.md 11.3)']
 L3 = ('needs whole-library execution (initialize, real forests, operations, compute tables). Measured: the ll2c+CBMC encoding of the whole library '
       '(578-705 functions after pruning) does not get through symbolic execution of library/forest set-up within 50 min (registries and tables of '
       '1024 entries, libstdc++ container code, imprecise virtual dispatch), see DESIGN.md 11.3; ')
@@ -26,7 +27,9 @@ CLAIMS['C16'] = ('Bounded model checking of the error paths reachable without a 
                  'the scalar policies. State preservation after an error inside a recursion is not covered (whole-library level).', 'DESIGN.md 11.2 C16')
 CLAIMS['C18'] = ('Bounded model checking of the four slot-array memory managers (array+grid, original grid, heap, free lists) from the real initManager through every '
                  'history of K request/recycle steps with symbolic sizes and victims (K=2 quick, K=3 thorough), against a shadow model: size, non-overlap, validity, contents '
-                 'of live chunks untouched; plus the bookkeeping of malloc_style. All CBMC pointer/bounds checks on.', 'DESIGN.md 11.2 C18')
+                 'of live chunks untouched, every live chunk reported in use by the manager; shaped start states (a scripted prefix that leaves a split hole / several holes, '
+                 'then 1-3 symbolic steps with sizes up to 14) for the hole managers, with the heap manager\'s own bookkeeping (current hole, heap root inside the used arena) '
+                 'checked after every step; arena growth scripts; plus the bookkeeping of malloc_style. All CBMC pointer/bounds checks on.', 'DESIGN.md 11.2 C18')
 CLAIMS['C19'] = ('Bounded model checking of the real terminal codec (terminal.h) and of forest::getEdgeForValue/getValueForEdge with every input symbolic at full machine '
                  'width: all 2^64 long values, all non-NaN float bit patterns, both booleans, +infinity; round trip, injectivity, unique zero handle, overflow rejection.',
                  'DESIGN.md 11.2 C19')
@@ -39,7 +42,8 @@ CLAIMS['C12'] = ('Component-level bounded model checking of the storage/memory-m
                  'and reads both back exactly (children symbolic). Together with C18 (managers) and C06 (deletion policies in node_headers). Policy independence of whole '
                  'operation histories is not covered (whole-library level).', 'DESIGN.md 11.2 C12')
 for p, why in [
-    ('C03', 'construction from minterms and evaluation'), ('C04', 'set operations over forests'), ('C07', 'compute tables inside operations (and ct_styles.cc fixes its table at 1024+ entries, no reachable small bound)'),
+    ('C03', 'construction from minterms and evaluation'), ('C04', 'set operations over forests'), ('C07', 'compute tables inside operations; a component harness (harness/c07_ct.cc: real ct_styles.cc table with 8 buckets via hook H4, real node headers, 3 symbolic steps) was built and measured: '
+            'symbolic execution alone did not finish in 50 min / ran out of 20 GB, because of std::vector growth, entry deletion and handle recycling loops over symbolic table state'),
     ('C08', 'reachability fixed points'), ('C09', 'image operations over relation nodes'), ('C11', 'iterators and cardinality over real forests'),
     ('C13', 'variable reordering of real forests'), ('C15', 'index-set conversion and lookup over real forests'),
     ('C17', 'library/domain/forest lifecycles'), ('C20', 'saturation over partitioned relations')]:
